@@ -860,6 +860,38 @@ theorem C08_pure_rbm_pos {hid : ℕ} (am : RBM ℝ n hid) (c : ℕ) :
         ∑ σ, bornPure psi σ * val σ = (expectation psi (neighbourOpenOp c)).re) :=
   C08_pure_states _ (fun σ => (C08_rbm_psi_ne_zero am am σ).1) c
 
+/-- **`SigmaY` on a real wavefunction is identically zero, sample by sample** (late theorem): if `ψ` has zero imaginary part
+everywhere (e.g. `PositiveWaveFunction`), every numerator `ψ(σ^{(i)})·(i·s_i)` is purely imaginary and the denominator `ψ(σ)` is
+real, so the real part `SigmaY.apply` keeps is exactly `0` for every sample (also where `ψ σ = 0`: the model's real division by zero
+gives `0`; the float code gives `nan` there — not reachable for an RBM state, `C08_rbm_psi_ne_zero`). -/
+theorem C08_sigmaY_real_state_zero (psi : Cfg n → C ℝ) (hreal : ∀ σ, (psi σ).2 = 0) (σ : Cfg n) :
+    sigmaYApply (ImpState.pure psi) false σ = 0 := by
+  have hre : (Obs.toC (C.div (C.sum n (fun i => C.mul ((ImpState.pure psi).numer (flipSpin i σ) σ) (0, spin (σ i))))
+      ((ImpState.pure psi).denom σ))).re = 0 := by
+    rw [Obs.toC_div, Obs.toC_sum, Complex.div_re]
+    have h1 : (∑ i, Obs.toC (C.mul ((ImpState.pure psi).numer (flipSpin i σ) σ) (0, spin (σ i)))).re = 0 := by
+      rw [Complex.re_sum]
+      refine Finset.sum_eq_zero (fun i _ => ?_)
+      simp [ImpState.pure, Obs.toC, hreal, C.mul]
+    have h2 : (Obs.toC ((ImpState.pure psi).denom σ)).im = 0 := by
+      simp [ImpState.pure, Obs.toC, hreal]
+    rw [h1, h2]; simp
+  have : (C.div (C.sum n (fun i => C.mul ((ImpState.pure psi).numer (flipSpin i σ) σ) (0, spin (σ i))))
+      ((ImpState.pure psi).denom σ)).1 = 0 := hre
+  simp only [sigmaYApply, absIf, this]
+  simp
+
+/-- … hence for the positive RBM wavefunction every `SigmaY` sample value is `0` and `Re ⟨ψ|M_Y|ψ⟩/⟨ψ|ψ⟩ = 0` (from the
+estimator theorem `C08_pure_rbm_pos`, clause 2: the exact average of the zero function). -/
+theorem C08_sigmaY_pos_zero {hid : ℕ} (am : RBM ℝ n hid) :
+    let psi : Cfg n → C ℝ := fun σ => Wave.psiPos am (fun j => bit (σ j))
+    (∀ σ, sigmaYApply (ImpState.pure psi) false σ = 0) ∧ (expectation psi (magnetOp pauliY)).re = 0 := by
+  intro psi
+  have h0 : ∀ σ, sigmaYApply (ImpState.pure psi) false σ = 0 := C08_sigmaY_real_state_zero psi (fun _ => rfl)
+  refine ⟨h0, ?_⟩
+  rw [← (C08_pure_rbm_pos am 1).2.1]
+  exact Finset.sum_eq_zero (fun σ _ => mul_eq_zero_of_right _ (h0 σ))
+
 
 
 /-! ### Composition with the sampler (C05) and the streaming statistics (C13): unbiased ON THE SAMPLES THE LIBRARY DRAWS
@@ -1116,7 +1148,7 @@ theorem C08_unbiased_statistics_mixed (am ph : PRBM ℝ n hid a) (c B : ℕ) (hB
 `p = ψ_λ²/Σψ_λ²`, threaded through `gibbsStepsB k` with `k = [burn_in, steps, …]`, `T = ⌈num_samples/B⌉` draws: the expectation of
 the mean `statistics` reports is the exact `p`-average of ANY per-sample function, and `⟨ψ|O|ψ⟩/⟨ψ|ψ⟩` for `SigmaX`, `SigmaY`,
 `SigmaZ`, `NeighbourInteraction` periodic / open.  (For `SigmaY` the right-hand side is what `C08_pure_states` gives, the real part
-of `⟨ψ|Y|ψ⟩/⟨ψ|ψ⟩`; that it vanishes for a real positive `ψ` is NOT part of this statement.) -/
+of `⟨ψ|Y|ψ⟩/⟨ψ|ψ⟩`; that both sides vanish for the real positive `ψ` is `C08_sigmaY_pos_zero`.) -/
 theorem C08_unbiased_statistics_pos (am : RBM ℝ n hid) (c B : ℕ) (hB : 1 ≤ B) (ns burnIn steps T : ℕ) (hns : 1 ≤ ns)
     (hT : numTimeSteps ns B = .ok T) :
     let psi : Cfg n → C ℝ := fun σ => Wave.psiPos am (fun j => bit (σ j))
